@@ -42,10 +42,15 @@ type spec struct {
 	dial    string // ok refused unreachable reject
 	order   string // clientFirst targetFirst
 	target  string // ip domain
+	client  string // outgoing client: stub (records the dial), or a real http / socks5 / ss2022 client chained to a harness upstream that runs the real server of that protocol
 }
 
 func (s spec) String() string {
-	return fmt.Sprintf("server=%s;native=%v;wait=%v;payload=%s;dial=%s;order=%s;target=%s", s.server, s.native, s.wait, s.payload, s.dial, s.order, s.target)
+	cl := s.client
+	if cl == "" {
+		cl = "stub"
+	}
+	return fmt.Sprintf("server=%s;native=%v;wait=%v;payload=%s;dial=%s;order=%s;target=%s;client=%s", s.server, s.native, s.wait, s.payload, s.dial, s.order, s.target, cl)
 }
 
 func parse(p string) spec {
@@ -67,6 +72,8 @@ func parse(p string) spec {
 			s.order = v
 		case "target":
 			s.target = v
+		case "client":
+			s.client = v
 		}
 	}
 	return s
@@ -74,14 +81,15 @@ func parse(p string) spec {
 
 // stub outgoing client
 type stubClient struct {
-	native   bool
-	dialErr  error
-	gotAddr  conn.Addr
-	gotPay   []byte
-	dialed   int
-	far      *vnet.Conn
-	near     *vnet.Conn
-	haveConn bool
+	native    bool
+	dialErr   error
+	gotAddr   conn.Addr
+	gotPay    []byte
+	dialed    int
+	far       *vnet.Conn
+	near      *vnet.Conn
+	haveConn  bool
+	transport bool // used as the transport under a real outgoing client: the payload is the proxy handshake and is written to the connection
 }
 
 func (c *stubClient) NewStreamDialer() (netio.StreamDialer, netio.StreamDialerInfo) {
@@ -97,6 +105,11 @@ func (c *stubClient) DialStream(ctx context.Context, addr conn.Addr, payload []b
 		return nil, c.dialErr
 	}
 	c.near, c.far = vnet.Pair("relay>target", "target", 1<<16)
+	if c.transport && len(payload) > 0 {
+		if _, err := c.near.Write(payload); err != nil {
+			return nil, err
+		}
+	}
 	c.haveConn = true
 	return c.near, nil
 }
@@ -159,6 +172,7 @@ func must[T any](v T, err error) T {
 func scenario(param string) vsched.Scenario {
 	sp := parse(param)
 	return func() (func(), func(*vsched.Exec) (string, string)) {
+		var upServer netio.StreamServer
 		var (
 			stub                                       = &stubClient{native: sp.native}
 			col                                        = &collector{Collector: stats.NoopCollector{}}
@@ -175,6 +189,9 @@ func scenario(param string) vsched.Scenario {
 			want                                       conn.Addr
 			cEnd, rEnd                                 *vnet.Conn
 			targetEOFBeforeReply, clientEOFBeforeReply bool
+			upAddr                                     conn.Addr
+			upPay                                      []byte
+			upSeen                                     bool
 		)
 		switch sp.dial {
 		case "refused":
@@ -215,7 +232,24 @@ func scenario(param string) vsched.Scenario {
 			if sp.dial == "reject" {
 				rcfg.DefaultTCPClientName = "reject"
 			}
-			rt := must(rcfg.Router(zap.NewNop(), nil, nil, map[string]netio.StreamClient{"stub": stub}, nil, map[string]int{"s": 0}))
+			var outgoing netio.StreamClient = stub
+			proxyAddr := conn.AddrFromIPPort(netip.MustParseAddrPort("198.51.100.5:3128"))
+			switch sp.client {
+			case "http":
+				stub.transport = true
+				outgoing = must((&httpproxy.ClientConfig{Name: "up", InnerClient: stub, Addr: proxyAddr}).NewProxyClient())
+				upServer = must((&httpproxy.ServerConfig{}).NewProxyServer())
+			case "socks5":
+				stub.transport = true
+				outgoing = (&socks5.StreamClientConfig{Name: "up", InnerClient: stub, Addr: proxyAddr}).NewStreamClient()
+				upServer = must((&socks5.StreamServerConfig{EnableTCP: true}).NewStreamServer())
+			case "ss2022":
+				stub.transport = true
+				upPSK := []byte("fedcba9876543210")
+				outgoing = (&ss2022.StreamClientConfig{Name: "up", InnerClient: stub, Addr: proxyAddr, CipherConfig: must(ss2022.NewClientCipherConfig(upPSK, nil, false))}).NewStreamClient()
+				upServer = (&ss2022.StreamServerConfig{UserCipherConfig: must(ss2022.NewUserCipherConfig(upPSK, false))}).NewStreamServer()
+			}
+			rt := must(rcfg.Router(zap.NewNop(), nil, nil, map[string]netio.StreamClient{"stub": outgoing}, nil, map[string]int{"s": 0}))
 			relay := service.NewTCPRelay(0, "s", nil, server, col, rt, zap.NewNop())
 			lnc := service.VerifTCPListener(sp.wait, 0, 0)
 			var g vsched.Group
@@ -229,7 +263,23 @@ func scenario(param string) vsched.Scenario {
 				if !stub.haveConn {
 					return
 				}
-				t := stub.far
+				var t netio.Conn = stub.far
+				if upServer != nil {
+					// the upstream proxy: the real server of the outgoing client's protocol
+					req, err := upServer.HandleStream(stub.far, zap.NewNop())
+					if err != nil {
+						targetErr = fmt.Errorf("upstream handshake: %w", err)
+						stub.far.Close()
+						return
+					}
+					upAddr, upPay, upSeen = req.Addr, append([]byte(nil), req.Payload...), true
+					tc, err := req.Proceed()
+					if err != nil {
+						targetErr = fmt.Errorf("upstream proceed: %w", err)
+						return
+					}
+					t = tc
+				}
 				readAll := func() {
 					buf := make([]byte, 64)
 					for {
@@ -255,7 +305,7 @@ func scenario(param string) vsched.Scenario {
 					targetSent = append(targetSent, "T-before-reset"...)
 					t.Write([]byte("T-before-reset"))
 					vsched.WaitIdle()
-					t.Reset()
+					stub.far.Reset()
 					return
 				}
 				if sp.order == "clientFirst" {
@@ -353,7 +403,7 @@ func scenario(param string) vsched.Scenario {
 			g.Wait()
 		}
 		check := func(e *vsched.Exec) (string, string) {
-			obs := fmt.Sprintf("dialed=%d addr=%v pay=%q tgot=%q cgot=%q ceof=%v teof=%v dialErr=%v cerr=%v terr=%v stats=%v", stub.dialed, stub.gotAddr, stub.gotPay, targetGot, clientGot, clientEOF, targetEOF, dialErrSeen, clientErr, targetErr, col.calls)
+			obs := fmt.Sprintf("up=%v/%q dialed=%d addr=%v pay=%v tgot=%q cgot=%q ceof=%v teof=%v dialErr=%v cerr=%v terr=%v stats=%v", upAddr, upPay, stub.dialed, stub.gotAddr, len(stub.gotPay), targetGot, clientGot, clientEOF, targetEOF, dialErrSeen, clientErr, targetErr, col.calls)
 			if len(e.Panics) > 0 {
 				return obs, "panic: " + e.Panics[0]
 			}
@@ -371,8 +421,17 @@ func scenario(param string) vsched.Scenario {
 				if stub.dialed != 1 {
 					return obs, fmt.Sprintf("onward connection dialled %d times", stub.dialed)
 				}
-				if stub.gotAddr.String() != want.String() {
-					return obs, fmt.Sprintf("dialled %v, client asked for %v", stub.gotAddr, want)
+				if sp.client == "" || sp.client == "stub" {
+					if stub.gotAddr.String() != want.String() {
+						return obs, fmt.Sprintf("dialled %v, client asked for %v", stub.gotAddr, want)
+					}
+				} else if sp.dial == "ok" {
+					if !upSeen {
+						return obs, fmt.Sprintf("the upstream proxy never received a valid request from the relay's %s client: %v", sp.client, targetErr)
+					}
+					if upAddr.String() != want.String() {
+						return obs, fmt.Sprintf("the upstream proxy was asked for %v, the client asked for %v", upAddr, want)
+					}
 				}
 			}
 			if sp.dial != "ok" {
@@ -431,7 +490,11 @@ func scenario(param string) vsched.Scenario {
 				return obs, ""
 			}
 			// delivered bytes
-			all := append(append([]byte(nil), stub.gotPay...), targetGot...)
+			first := stub.gotPay
+			if upServer != nil {
+				first = upPay
+			}
+			all := append(append([]byte(nil), first...), targetGot...)
 			if !bytes.Equal(all, clientSent) {
 				if bytes.HasPrefix(clientSent, all) {
 					return obs, "uplink bytes lost: the target received only a strict prefix of what the client sent"
@@ -488,20 +551,35 @@ func family(c *harness.Check) []string {
 						if pay == "none" && order == "clientFirst" && !c.Thorough() && sv != "tunnel" {
 							// covered by early/clientFirst except for the wait timer; keep for tunnel
 						}
-						out = append(out, spec{sv, native, wait, pay, "ok", order, "ip"}.String())
+						out = append(out, spec{sv, native, wait, pay, "ok", order, "ip", ""}.String())
 					}
 				}
-				out = append(out, spec{sv, native, wait, "early", "ok", "targetReset", "ip"}.String())
+				out = append(out, spec{sv, native, wait, "early", "ok", "targetReset", "ip", ""}.String())
 				for _, d := range []string{"refused", "unreachable", "reject"} {
-					out = append(out, spec{sv, native, wait, "early", d, "clientFirst", "ip"}.String())
+					out = append(out, spec{sv, native, wait, "early", d, "clientFirst", "ip", ""}.String())
 					if wait {
-						out = append(out, spec{sv, native, wait, "none", d, "clientFirst", "ip"}.String())
+						out = append(out, spec{sv, native, wait, "none", d, "clientFirst", "ip", ""}.String())
 					}
 				}
 			}
 		}
 		if sv != "tunnel" {
-			out = append(out, spec{sv, true, true, "early", "ok", "clientFirst", "domain"}.String())
+			out = append(out, spec{sv, true, true, "early", "ok", "clientFirst", "domain", ""}.String())
+		}
+		// chained proxies: a real outgoing client talking to the real server of its protocol
+		if sv == "tunnel" || sv == "socks5" || c.Thorough() {
+			for _, cl := range []string{"http", "socks5", "ss2022"} {
+				native := cl == "ss2022"
+				for _, pay := range []string{"none", "early", "eofData"} {
+					for _, order := range []string{"clientFirst", "targetFirst"} {
+						if pay == "eofData" && order == "targetFirst" {
+							continue
+						}
+						out = append(out, spec{sv, native, native && sv != "ss2022", pay, "ok", order, "ip", cl}.String())
+					}
+				}
+				out = append(out, spec{sv, native, false, "early", "ok", "clientFirst", "domain", cl}.String())
+			}
 		}
 	}
 	sort.Strings(out)
